@@ -416,32 +416,40 @@ def goBlockStart (trimmed : Text) : Bool :=
     | '(' :: rest => rest.all isWhite
     | _ => false
 
-/-- the loop of `GoModParser::parse` over `content.lines().enumerate()`; `off` = `line_start` as the code
-    computes it (Σ (len + 1) over the preceding `lines()` pieces) -/
-def goLines : List Text → (lineNum off : Nat) → (inBlock : Bool) → List PkgInfo
-  | [], _, _, _ => []
-  | line :: rest, n, off, inBlock =>
-    let next := off + byteLen line + 1
+/-- `str::lines()` with the byte offset at which each line starts in the document (what
+    `line.as_ptr() - content.as_ptr()` yields): pieces end at `\n`, a trailing `\r` is dropped from the piece
+    but still counted in the offset of the next one -/
+def linesWithOffsets : Text → Text → (start cur : Nat) → List (Text × Nat)
+  | [], acc, start, _ => if acc.isEmpty then [] else [(acc.reverse, start)]
+  | c :: cs, acc, start, cur =>
+    if c == '\n' then
+      ((match acc with | '\r' :: r => r.reverse | _ => acc.reverse), start) :: linesWithOffsets cs [] (cur + 1) (cur + 1)
+    else linesWithOffsets cs (c :: acc) start (cur + utf8Len c)
+
+/-- the loop of `GoModParser::parse` over `content.lines().enumerate()`; each line comes with `line_start` -/
+def goLines : List (Text × Nat) → (lineNum : Nat) → (inBlock : Bool) → List PkgInfo
+  | [], _, _ => []
+  | (line, off) :: rest, n, inBlock =>
     let trimmed := trim line
-    if trimmed.isEmpty || startsWith trimmed "//".toList then goLines rest (n + 1) next inBlock
-    else if inBlock && trimmed == [')'] then goLines rest (n + 1) next false
-    else if goBlockStart trimmed then goLines rest (n + 1) next true
+    if trimmed.isEmpty || startsWith trimmed "//".toList then goLines rest (n + 1) inBlock
+    else if inBlock && trimmed == [')'] then goLines rest (n + 1) false
+    else if goBlockStart trimmed then goLines rest (n + 1) true
     else if inBlock then
       let lead := line.takeWhile isWhite
       match goSpec (line.dropWhile isWhite) with
       | some (path, before, v) =>
         let col := byteLen lead + byteLen before
-        ⟨path, v, none, off + col, off + col + byteLen v, n, col, none⟩ :: goLines rest (n + 1) next inBlock
-      | none => goLines rest (n + 1) next inBlock
+        ⟨path, v, none, off + col, off + col + byteLen v, n, col, none⟩ :: goLines rest (n + 1) inBlock
+      | none => goLines rest (n + 1) inBlock
     else
       match goSingle trimmed with
       | some (path, v) =>
         let rp := (find? Sites.requireKw line).getD 0
         let pos := match (Slice.sliceFrom line rp).bind (find? v) with | some p => rp + p | none => 0
-        ⟨path, v, none, off + pos, off + pos + byteLen v, n, pos, none⟩ :: goLines rest (n + 1) next inBlock
-      | none => goLines rest (n + 1) next inBlock
+        ⟨path, v, none, off + pos, off + pos + byteLen v, n, pos, none⟩ :: goLines rest (n + 1) inBlock
+      | none => goLines rest (n + 1) inBlock
 
-def goMod (content : Text) : List PkgInfo := goLines (lines content) 0 0 false
+def goMod (content : Text) : List PkgInfo := goLines (linesWithOffsets content [] 0 0) 0 false
 
 end Parsers
 end Vlsp
